@@ -363,7 +363,7 @@ class Run:
             res["t1"] = round(self.loop.time(), 6)
             self.callers[name]["_res"] = res
             self.elog.append({"ev": "done", "c": name, "exc": {"none": "none", "CancelledError": "Cancelled"}.get(res["exc"], res["exc"]),
-                              "nres": 0, "res": []})
+                              "nres": len(res["results"]), "res": [["none", 0] for _ in res["results"]]})
             return
         items = [(_sq.sleep(n / 1000.0) if k == "sleep" else _sq.progress(message="p%d" % n) if k == "progress" else make_command(k, n))
                  for k, n in c["unit"]]
